@@ -1,1 +1,70 @@
-From InvokeVerif Require Import Model.EnvModel Spec.C16Spec.
+(** C16 -- Environment variables override exactly the existing settings they
+    name, typed.  Statements only; proofs are in Proofs/C16_env.v. *)
+From InvokeVerif Require Import Common.Tree Common.StrUtil Model.EnvModel Spec.C16Spec
+     Proofs.C16_env.
+
+(** Flagship: for every well-formed config tree, prefix and environment, what
+    the model of Environment.load returns is accepted by the executable spec
+    (ambiguity refused; exactly the named existing settings applied, converted
+    by the type of the value they override; nothing created). *)
+Theorem C16_load_meets_spec : forall kids pfx env,
+  wf (Node kids) = true ->
+  spec_ok (Node kids) pfx env (load (Node kids) pfx env) = true.
+Proof. exact load_meets_spec. Qed.
+
+(** Refused as ambiguous exactly when two distinct setting paths share a name. *)
+Theorem C16_ambiguous_iff : forall kids pfx env,
+  wf (Node kids) = true ->
+  (load (Node kids) pfx env = Err EAmbigEnv <->
+   exists p q, In p (map fst (leaf_paths (Node kids))) /\ In q (map fst (leaf_paths (Node kids))) /\
+               p <> q /\ var_name p = var_name q).
+Proof. exact load_ambiguous_iff. Qed.
+
+(** Never creates settings: every leaf of the result overrides an existing leaf
+    named by a present variable, with the converted value. *)
+Theorem C16_never_creates : forall kids pfx env d,
+  wf (Node kids) = true -> load (Node kids) pfx env = Ok d ->
+  forall q w, In (q, w) (leaf_paths (Node d)) ->
+    exists old s, In (q, old) (leaf_paths (Node kids)) /\
+                  lookup_env (pfx ++ var_name q) env = Some s /\ convert old s = Ok w.
+Proof. exact load_never_creates. Qed.
+
+(** Applied exactly: every existing setting named by a present variable is in the result. *)
+Theorem C16_applied_exactly : forall kids pfx env d,
+  wf (Node kids) = true -> load (Node kids) pfx env = Ok d ->
+  forall q old s, In (q, old) (leaf_paths (Node kids)) ->
+    lookup_env (pfx ++ var_name q) env = Some s ->
+    exists w, convert old s = Ok w /\ In (q, w) (leaf_paths (Node d)).
+Proof. exact load_applies_all. Qed.
+
+(** Variables naming no existing setting have no influence at all. *)
+Theorem C16_unrelated_ignored : forall kids pfx env env',
+  wf (Node kids) = true ->
+  (forall p, In p (map fst (leaf_paths (Node kids))) ->
+             lookup_env (pfx ++ var_name p) env = lookup_env (pfx ++ var_name p) env') ->
+  load (Node kids) pfx env = load (Node kids) pfx env'.
+Proof. exact load_unrelated_ignored. Qed.
+
+(** Conversion table of the model. *)
+Theorem C16_cast_table :
+  (forall b s, cast (VBool b) s = Ok (VBool (negb (String.eqb s "" || String.eqb s "0")))) /\
+  (forall x s, cast (VStr x) s = Ok (VStr s)) /\
+  (forall s, cast VNone s = Ok (VStr s)) /\
+  (forall l s, cast (VList l) s = Err EUncastable) /\
+  (forall l s, cast (VTuple l) s = Err EUncastable) /\
+  (forall z s, cast (VInt z) s = match parse_int s with Some n => Ok (VInt n) | None => Err EValue end).
+Proof. exact cast_table. Qed.
+
+(** Non-vacuity: a well-formed tree where distinct paths collide only at depth,
+    and one where a nested setting is overridden. *)
+Example C16_example_collision :
+  let t := [("a", Node [("b", Leaf (VInt 1))]); ("a_b", Leaf (VInt 2))] in
+  wf (Node t) = true /\ load (Node t) "INVOKE_" [("INVOKE_A_B", "5")] = Err EAmbigEnv.
+Proof. vm_compute. split; reflexivity. Qed.
+
+Example C16_example_applied :
+  let t := [("run", Node [("echo", Leaf (VBool false)); ("shell", Leaf (VStr "sh"))]); ("n", Leaf (VInt 1))] in
+  wf (Node t) = true /\
+  load (Node t) "INVOKE_" [("INVOKE_RUN_ECHO", "1"); ("INVOKE_N", "-7"); ("INVOKE_NOPE", "x"); ("RUN_SHELL", "zsh")]
+  = Ok [("run", Node [("echo", Leaf (VBool true))]); ("n", Leaf (VInt (-7)))].
+Proof. vm_compute. split; reflexivity. Qed.
